@@ -32,7 +32,10 @@ fn esc(s: &str) -> String {
 fn emit(id: usize, f: impl FnOnce() -> String) {
     match std::panic::catch_unwind(std::panic::AssertUnwindSafe(f)) {
         Ok(s) => println!("{{\"variant\":{},\"outcome\":\"Ok\",\"html\":\"{}\"}}", id, esc(&s)),
-        Err(_) => println!("{{\"variant\":{},\"outcome\":\"Panic\",\"html\":\"\"}}", id),
+        Err(e) => {
+            let msg = if let Some(s) = e.downcast_ref::<&str>() { s.to_string() } else if let Some(s) = e.downcast_ref::<String>() { s.clone() } else { "panic".to_string() };
+            println!("{{\"variant\":{},\"outcome\":\"Panic\",\"html\":\"{}\"}}", id, esc(&msg))
+        }
     }
 }
 
@@ -97,7 +100,7 @@ def extract(html):
 def check(run):
     quick = run.tier == "quick"
     rng = random.Random(run.seed)
-    res = vp.tlc("MC_Embed", "MC_Embed_strings.cfg", run.workdir, workers=8)
+    res = vp.tlc("MC_Embed", "MC_Embed_strings.cfg" if quick else "MC_Embed_strings_thorough.cfg", run.workdir, workers=8, timeout=3600)
     vp.tlc_ok(res, "MC_Embed strings")
     run.add_mc("MC_Embed/strings (escaping transducer)", res)
     res2 = vp.tlc("MC_Embed", "MC_Embed_units.cfg", run.workdir, workers=4)
@@ -147,6 +150,7 @@ def check(run):
             touched = [[loc, ns] for loc, ns in p["variants"][ev["variant"]]]
             base = {"ev": "Script", "case": pi + 1, "variant": ev["variant"], "touched": touched, "outcome": ev["outcome"]}
             if ev["outcome"] != "Ok":
+                base["panic"] = ev.get("html", "")[:300]
                 trace.append(base)
                 continue
             html = ev["html"]
@@ -185,7 +189,7 @@ def check(run):
     run.samples = [{"strings": projects[0]["abs"]["strings"][:6], "touch_variants": projects[0]["variants"]}]
     run.exhaustive = not quick
     run.notes["strings"] = len(strings)
-    run.assumptions = ["strings of <= 3 characters over {a, quote, backslash, newline, <, /, !, U+2028, U+1F600} plus `</script>`, `<!--`, `]]>`, non-ASCII and control characters; ~60 per project (seeded sample in the quick tier)",
+    run.assumptions = ["strings of <= 3 (quick) / 4 (thorough) characters over {a, quote, backslash, newline, <, /, !, U+2028, U+1F600} plus `</script>`, `<!--`, `]]>`, non-ASCII and control characters; ~60 per project (seeded sample in the quick tier)",
                        "every project is rendered with 7 touch lists (no unit, each unit alone, all, one twice, interleaved); every second project uses namespaces",
                        "the script is extracted the way an HTML parser would (up to the first `</script`) and decoded as JSON; node is not used",
                        "only the server side (dynamic_load + ssr); the client's init_translations needs a browser"]
